@@ -135,8 +135,12 @@ def run(chk):
     chk.floor("R7", len(msgs), 1, "can.Message in PeriodicMessageTask.__init__")
     for c in msgs:
         kw = {k.arg: src(k.value) for k in c.keywords}
-        chk.check(kw.get("arbitration_id") == "can_id" and kw.get("data") == "data" and kw.get("is_remote_frame") == "remote", "R7",
+        copies = ("None if data is None else bytearray(data)", "bytearray(data)", "bytes(data)", "None if data is None else bytes(data)")
+        chk.check(kw.get("arbitration_id") == "can_id" and kw.get("data") in ("data",) + copies and kw.get("is_remote_frame") == "remote", "R7",
                   f"{NET}:PeriodicMessageTask.__init__ | message fields", pmt.loc(c), f"message built from {kw}")
+        chk.check(kw.get("data") in copies, "R6", f"{NET}:PeriodicMessageTask.__init__ | the task owns its payload", pmt.loc(c),
+                  f"data={kw.get('data')}: can.Message keeps a reference to a bytearray, so the message shares the producer's buffer; PDO variables are written in place and "
+                  "update() then always sees old == new: on a bus without modify_data the task is never restarted and keeps sending the old payload")
     chk.check(bool(find_calls(pmt.node, "self._start")) and src(attr_stores(pmt.node, "period")[0].value) == "period" if attr_stores(pmt.node, "period") else False,
               "R7", f"{NET}:PeriodicMessageTask.__init__ | period and start", pmt.loc(), "period not stored or task not started")
     stt = repo.func(NET, "PeriodicMessageTask._start", "C17.R7")
